@@ -123,3 +123,129 @@ def native_C02(tier, seed):
             fails.append({"id": f"C02-reject-rows-{r}", "obligation": "rejection:same-mask", "what": "kept rows are not the accepted rows", "input": {"seed": seed, "rep": r}})
     return {"what": "real Samples.compute_weights / rejection_sample against mpmath on generated log-density vectors: magnitudes to 1e5, offsets +-800/1e5, ties, -inf subsets, numpy/torch/jax x float32/float64",
             "bound": f"{cases} cases", "cases": cases, "failures": fails}
+
+
+# ------------------------------------------------------------------------------------------ C04
+def _num_logdet(f, x, h=1e-6):
+    d = len(x)
+    J = np.zeros((d, d))
+    for k in range(d):
+        e = np.zeros(d)
+        e[k] = h
+        J[:, k] = (np.asarray(f(x + e), dtype=float) - np.asarray(f(x - e), dtype=float)) / (2 * h)
+    return math.log(abs(np.linalg.det(J)))
+
+
+def native_C04(tier, seed):
+    from aspire.transforms import (AffineTransform, CompositeTransform, IdentityTransform, LogitTransform, PeriodicTransform, ProbitTransform)
+    rng = np.random.default_rng(seed)
+    fails, cases = [], 0
+
+    def bad(idn, obl, what, inp):
+        fails.append({"id": idn, "obligation": obl, "what": what, "input": inp})
+
+    for nsname, xp, dts in namespaces():
+        for dtn, dt in dts.items():
+            tol = 2e-3 if dtn == "float32" else 1e-8
+            A = lambda v: xp.asarray(np.asarray(v), dtype=dt)  # noqa: E731
+            N = lambda v: np.asarray(v, dtype=float)  # noqa: E731
+            # --- bounded maps over many orders of magnitude
+            for scale in ([1e-3, 1.0, 1e3, 1e6] if dtn == "float64" else [1e-2, 1.0, 1e2]):
+                lo = np.array([-1.0, 0.0, 2.0]) * scale
+                hi = lo + np.array([1.0, 3.0, 0.5]) * scale
+                margin = 1e-3
+                u = rng.uniform(margin, 1 - margin, size=(40, 3))
+                X = lo + u * (hi - lo)
+                for cls in (LogitTransform, ProbitTransform):
+                    cases += 1
+                    inp = {"class": cls.__name__, "namespace": nsname, "dtype": dtn, "scale": scale, "seed": seed}
+                    try:
+                        t = cls(lower=A(lo), upper=A(hi), xp=xp, eps=1e-6, dtype=dt)
+                        y, lj = t.forward(A(X))
+                        xb, ljb = t.inverse(y)
+                        fit = t.fit(A(X))
+                    except Exception as e:  # noqa: BLE001
+                        bad(f"C04-raise-{cls.__name__}-{nsname}-{dtn}-{scale}", "C04", f"{type(e).__name__}: {e}", inp)
+                        continue
+                    rel = np.abs(N(xb) - X) / (hi - lo)
+                    if rel.max() > (5e-3 if dtn == "float32" else 1e-7):
+                        bad(f"C04-roundtrip-{cls.__name__}-{nsname}-{dtn}-{scale}", "roundtrip", f"inverse(forward(x)) != x, rel err {rel.max():.3g}", inp)
+                    if np.abs(N(lj) + N(ljb)).max() > (5e-2 if dtn == "float32" else 1e-6) * max(1.0, np.abs(N(lj)).max()):
+                        bad(f"C04-ljneg-{cls.__name__}-{nsname}-{dtn}-{scale}", "lj_inv_neg", f"lj_inv != -lj_fwd: {np.abs(N(lj) + N(ljb)).max():.3g}", inp)
+                    if not np.array_equal(N(fit), N(y)):
+                        bad(f"C04-fit-{cls.__name__}-{nsname}-{dtn}-{scale}", "fit==forward", "fit(x) != forward(x)[0]", inp)
+                    if dtn == "float64" and nsname == "numpy":
+                        t64 = cls(lower=lo, upper=hi, xp=xp, eps=1e-12, dtype=dt)
+                        for i in range(4):
+                            h = 1e-6 * scale
+                            nd = _num_logdet(lambda v: t64.forward(v[None, :])[0][0], X[i], h=h)
+                            if abs(nd - float(N(t64.forward(X[i:i + 1])[1])[0])) > 1e-4:
+                                bad(f"C04-deriv-{cls.__name__}-{scale}-{i}", "deriv", f"forward log-Jacobian {float(N(t64.forward(X[i:i+1])[1])[0])} vs numeric {nd}", inp)
+            # --- periodic wrap: any real number
+            lo, hi = np.array([0.0, -math.pi]), np.array([2 * math.pi, math.pi])
+            t = PeriodicTransform(lower=A(lo), upper=A(hi), xp=xp, dtype=dt)
+            X = rng.uniform(-50, 50, size=(200, 2))
+            y, lj = t.forward(A(X))
+            cases += 1
+            yy = N(y)
+            inp = {"class": "PeriodicTransform", "namespace": nsname, "dtype": dtn, "seed": seed}
+            if not ((yy >= lo).all() and (yy < hi + (1e-5 if dtn == "float32" else 0)).all()):
+                bad(f"C04-periodic-range-{nsname}-{dtn}", "periodic_mem", "wrapped value outside [lower, upper)", inp)
+            k = (X - yy) / (hi - lo)
+            if np.abs(k - np.round(k)).max() > (1e-3 if dtn == "float32" else 1e-9):
+                bad(f"C04-periodic-congr-{nsname}-{dtn}", "periodic_congr", "wrapped value not congruent modulo the period", inp)
+            if np.abs(N(lj)).max() != 0 or np.abs(N(t.inverse(y)[1])).max() != 0:
+                bad(f"C04-periodic-lj-{nsname}-{dtn}", "periodic_lj_zero", "non-zero log-Jacobian", inp)
+            Xin = lo + rng.uniform(0.001, 0.999, size=(50, 2)) * (hi - lo)
+            xb = N(t.inverse(t.forward(A(Xin))[0])[0])
+            if np.abs(xb - Xin).max() > (1e-4 if dtn == "float32" else 1e-12):
+                bad(f"C04-periodic-roundtrip-{nsname}-{dtn}", "periodic_roundtrip", "inverse(forward(x)) != x inside the bounds", inp)
+            # float edge: just below the lower bound (known finding, bounded only)
+            edge = np.array([[lo[0] - 1e-20, 0.0]])
+            ye = N(t.forward(A(edge))[0])
+            cases += 1
+            if not (ye[0, 0] < hi[0]):
+                bad(f"C04-periodic-float-edge-{nsname}-{dtn}", "periodic_mem", f"periodic wrap float edge: x = lower - 1e-20 is mapped to upper ({ye[0,0]!r}) instead of [lower, upper)", inp)
+            # --- composite: every on/off combination
+            for per in ([], ["c"]):
+                for b2u in (True, False):
+                    for bt in ("logit", "probit"):
+                        for aff in (True, False):
+                            cases += 1
+                            inp = {"class": "CompositeTransform", "periodic": per, "bounded_to_unbounded": b2u, "bounded_transform": bt, "affine": aff,
+                                   "namespace": nsname, "dtype": dtn, "seed": seed}
+                            try:
+                                tr = CompositeTransform(parameters=["a", "b", "c"], periodic_parameters=per, prior_bounds={"a": [-2, 3], "b": [0, 1e3], "c": [-1, 1]},
+                                                        bounded_to_unbounded=b2u, bounded_transform=bt, affine_transform=aff, xp=xp, dtype=dt)
+                                X = np.column_stack([rng.uniform(-1.9, 2.9, 40), rng.uniform(1, 999, 40), rng.uniform(-0.99, 0.99, 40)])
+                                fitv = tr.fit(A(X))
+                                y, lj = tr.forward(A(X))
+                                xb, ljb = tr.inverse(y)
+                            except Exception as e:  # noqa: BLE001
+                                bad(f"C04-composite-raise-{nsname}-{dtn}-{per}-{b2u}-{bt}-{aff}", "C04", f"{type(e).__name__}: {e}", inp)
+                                continue
+                            if np.abs(N(xb) - X).max() > (0.5 if dtn == "float32" else 1e-6):
+                                bad(f"C04-composite-roundtrip-{nsname}-{dtn}-{per}-{b2u}-{bt}-{aff}", "composite:roundtrip", f"max err {np.abs(N(xb) - X).max():.3g}", inp)
+                            if np.abs(N(lj) + N(ljb)).max() > (5e-2 if dtn == "float32" else 1e-6):
+                                bad(f"C04-composite-ljneg-{nsname}-{dtn}-{per}-{b2u}-{bt}-{aff}", "composite:lj_inv_neg", f"{np.abs(N(lj) + N(ljb)).max():.3g}", inp)
+                            if not np.allclose(N(fitv), N(y), rtol=0, atol=0):
+                                bad(f"C04-composite-fit-{nsname}-{dtn}-{per}-{b2u}-{bt}-{aff}", "composite:fit==forward", "fit(x) != forward(x)[0]", inp)
+                            if dtn == "float64" and nsname == "numpy":
+                                for i in range(3):
+                                    nd = _num_logdet(lambda v: tr.forward(v[None, :])[0][0], X[i])
+                                    if abs(nd - float(N(lj)[i])) > 1e-4:
+                                        bad(f"C04-composite-deriv-{per}-{b2u}-{bt}-{aff}-{i}", "composite:deriv", f"log-Jacobian {float(N(lj)[i])} vs numeric {nd}", inp)
+    # affine re-fit (the log-Jacobian must follow the statistics of the last fit)
+    import array_api_compat.numpy as xnp
+    t = AffineTransform(xp=xnp)
+    X1 = rng.normal(0, 1, size=(100, 2))
+    X2 = rng.normal(5, 30, size=(100, 2))
+    t.fit(X1)
+    t.fit(X2)
+    y, lj = t.forward(X2[:5])
+    nd = _num_logdet(lambda v: t.forward(v[None, :])[0][0], X2[0])
+    cases += 1
+    if abs(nd - float(lj[0])) > 1e-6:
+        bad("C04-affine-refit", "affine_deriv", f"after a second fit the log-Jacobian {float(lj[0])} is not that of the current map ({nd})", {"class": "AffineTransform", "sequence": "fit, fit"})
+    return {"what": "real transform classes: round trips down to a 1e-3 margin, inverse/forward log-Jacobian negation, numeric derivative vs reported log-Jacobian, wrap range and congruence, fit == forward, all 16 composite configurations; numpy/torch/jax x float32/float64; bounds over 9 orders of magnitude",
+            "bound": f"{cases} configurations", "cases": cases, "failures": fails}
